@@ -14,7 +14,7 @@ C01_RULES = PK.C01_RULES | {'Locality', 'LocalityCount', 'PacketBitsConsumed', '
 def gen_cases(families=('sizes', 'shapes', 'mutations', 'residue')):
     out = {}; stats = dict(states=0, transitions=0, runs={})
     def run(f):
-        r = vlib.run_tlc('Setup_MC.tla', f'Setup_MC_{f}.cfg', workers=2, timeout=900)
+        r = vlib.run_tlc('Setup_MC.tla', f'Setup_MC_{f}.cfg', workers=(8 if f == 'residue' else 2), timeout=900)
         return f, r
     with ThreadPoolExecutor(max_workers=3) as ex: rs = list(ex.map(run, families))
     problems = []
